@@ -4,13 +4,22 @@ import re
 # A pattern to match the word "through" or equivalent symbol or
 # abbreviation. (Embedded into other regex patterns -- not to be used on
 # its own.)
+# NOTE: `(?:\.|(?!\.))` is `\.?` that never declines an available period
+# (otherwise, inside `intervener_regex`, 'thru.' could also be read as 'thru'
+# followed by the separator '.', which doubles the backtracking work for
+# every such occurrence).
 through_regex = re.compile(
-    r'([\-–—]|th[rough]{3,6}\.?|thru\.?|to)', re.IGNORECASE)
+    r'([\-–—]|th[rough]{3,6}(?:\.|(?!\.))|thru(?:\.|(?!\.))|to)', re.IGNORECASE)
 
 
 # A pattern to be embedded within patterns to match elided lists.
 # For example, for matching multisec:  "Sections 1 - 3, and 5 - 7"
 # ... or multi-lots:  "Lots 1 - 3".
+# NOTE: The trailing `\s*(?!\s)` takes ALL of the white space that follows, so
+# that no white space is left for the `\s*` that comes next in the embedding
+# patterns (the leading `\s*` of another intervener, or the `\s*` before the
+# number). If a run of white space could be split between them, a failing
+# match would try every split of every run: exponential backtracking.
 intervener_regex = re.compile(
     fr"""
     (?P<intervener>
@@ -23,7 +32,7 @@ intervener_regex = re.compile(
         |
         (?P<and>and|&)
     )
-    \s*
+    \s*(?!\s)     # ALL of the trailing white space.
     )
     """, re.IGNORECASE | re.VERBOSE)
 
